@@ -2,7 +2,9 @@
 import json
 import os
 import shutil
+import signal
 import tempfile
+import threading
 
 PID = "C49"
 LEAN_MODULES = ["Pkgcore.Props.C49"]
@@ -21,6 +23,8 @@ TRUSTED = [
     "through pkgcore.ebuild.processor (request_ebuild_processor via UnconfiguredTree with caching disabled) and compares the metadata",
     "ebuild/eclass *text* is rendered from the statement tree by the harness (V=\"…\", V+=\" …\", V=\"${V} …\", unset, function "
     "definitions, EXPORT_FUNCTIONS, inherit); bash's parsing of that text is not modelled",
+    "statements that change only shell state (IFS, shopt, set -f) are rendered into the files but not given to the model: the daemon "
+    "restores that state after every sourced file, so they are no-ops for the metadata — validated by the daemon runs",
     "per-EAPI tables (metadata keys, phase functions, PROPERTIES/RESTRICT accumulation) are regenerated from pkgcore.ebuild.eapi on every run; "
     "the list of accumulated variables and the EAPI 0-3 RDEPEND default are constants of the bash code, copied into the model",
 ]
@@ -29,9 +33,11 @@ ASSUMPTIONS = [
     "the order of the eclass set (_eclasses_) is not compared: it depends on pkgcore's per-set cache, only membership is a property",
 ]
 RULE = ("random repositories of 5-9 eclasses (a DAG with nested inherits up to depth 4, eclasses inherited several times) and ebuilds over "
-        "EAPIs 0-8 whose statements are assignments, appends (+= and \"${V} …\"), unsets, phase function definitions, EXPORT_FUNCTIONS "
+        "EAPIs 0-8 whose statements are assignments, appends (+= and \"${V} …\"), unsets, definitions of phase functions and of helper functions (names "
+        "with a phase function name as proper prefix, suffix or infix, proper prefixes of one, other case), EXPORT_FUNCTIONS "
         "calls (one to three phases per call, anywhere in the eclass: the <eclass>_<phase> functions are defined before the call, after it, "
-        "or not at all) and inherit lines, placed before and after the inherit; values with irregular whitespace and empty values; "
+        "or not at all), changes of shell state left behind at global scope (IFS, shopt, set -f; after the file's last inherit/EXPORT_FUNCTIONS) "
+        "and inherit lines, placed before and after the inherit; values with irregular whitespace and empty values; "
         "non-trivial = the ebuild inherits at least one eclass and some accumulated key gets a value from an eclass")
 LEVEL_TEXT = ("Kernel-checked Lean 4 theorems about a hand translation of inherit()/__load_ebuild()/__dump_metadata_keys()/_update_metadata over "
               "arbitrary ebuild/eclass trees (any depth, any number of statements): every accumulated key is the ebuild's own value followed by "
@@ -47,10 +53,43 @@ ACC8 = ["PROPERTIES", "RESTRICT"]
 PLAIN = ["DESCRIPTION", "HOMEPAGE", "LICENSE", "KEYWORDS", "SLOT", "SRC_URI"]
 PHASES = ["pkg_pretend", "pkg_setup", "src_unpack", "src_prepare", "src_configure", "src_compile", "src_test", "src_install",
           "pkg_preinst", "pkg_postinst", "pkg_prerm", "pkg_postrm", "pkg_config", "pkg_info", "pkg_nofetch", "my_helper", "src_foo"]
+# helper functions next to the phase functions: names that contain a phase function name as a proper prefix, as a suffix or in the
+# middle, that are a proper prefix of one, or differ from one in case — none of them is a phase function
+HELPER_SUFFIX = ["_docs", "_env", "_extra", "_setup", "2", "s", "_", "-all", "_pre", "_internal"]
+HELPER_PREFIX = ["my_", "_", "x", "do_", "__", "pre_"]
+
+
+def gen_func_name(rng):
+    """a phase function name (60 %) or the name of a helper function derived from one"""
+    k = rng.random()
+    ph = rng.choice(PHASES[:15])
+    if k < 0.6:
+        return rng.choice(PHASES)
+    if k < 0.8:
+        return ph + rng.choice(HELPER_SUFFIX)
+    if k < 0.88:
+        return rng.choice(HELPER_PREFIX) + ph
+    if k < 0.92:
+        return rng.choice(HELPER_PREFIX) + ph + rng.choice(HELPER_SUFFIX)
+    if k < 0.96:
+        return ph[:rng.randint(4, len(ph) - 1)]
+    return ph.upper() if rng.random() < 0.5 else ph.replace("_", "_" + rng.choice("sp"), 1)
+
+
+def func_kind(name):
+    if name in PHASES[:15]:
+        return "phase"
+    if any(name.startswith(p) for p in PHASES[:15]):
+        return "helper_with_phase_prefix"
+    if any(name.endswith(p) for p in PHASES[:15]):
+        return "helper_with_phase_suffix"
+    if any(p in name for p in PHASES[:15]):
+        return "helper_containing_phase"
+    return "helper_other"
 TOK = {"IUSE": ["a", "b", "+c", "-d", "x_y"], "REQUIRED_USE": ["a", "||", "(", ")", "b?", "!c"],
-       "DEPEND": ["cat/a", ">=cat/b-1", "u?", "(", ")", "cat/c:0"], "RDEPEND": ["cat/r", "cat/s[u]"], "PDEPEND": ["cat/p"],
+       "DEPEND": ["cat/a", ">=cat/b-1", "u?", "(", ")", "cat/c:0", ">=dev-libs/x-1.5"], "RDEPEND": ["cat/r", "cat/s[u]", "dev-libs/z:2.0"], "PDEPEND": ["cat/p"],
        "BDEPEND": ["cat/bd"], "IDEPEND": ["cat/id"], "PROPERTIES": ["live", "interactive"], "RESTRICT": ["test", "mirror", "!u?", "strip"],
-       "DESCRIPTION": ["d1", "some", "text"], "HOMEPAGE": ["http://h"], "LICENSE": ["GPL-2", "MIT"], "KEYWORDS": ["~amd64", "x86", "-*"],
+       "DESCRIPTION": ["d1", "some", "text", "v1.2", "a-b:c"], "HOMEPAGE": ["http://h"], "LICENSE": ["GPL-2", "MIT"], "KEYWORDS": ["~amd64", "x86", "-*"],
        "SLOT": ["0", "1/2"], "SRC_URI": ["http://s/a.tar", "->", "b.tar"]}
 
 
@@ -87,7 +126,23 @@ def gen_value(rng, var):
     return s
 
 
+# statements that only change shell state the daemon puts back after every sourced file (IFS, shopt, set options): an eclass or
+# ebuild may leave them changed at global scope; the metadata must not depend on it
+SHELL_STATE = ["IFS=.", "IFS=:", "IFS=/", "IFS=-", "IFS=", "IFS=$'\\n'", "IFS=. ; set -- ${PV}", "IFS=a", "IFS=' ='",
+               "shopt -s extglob", "shopt -s nullglob", "shopt -u extglob", "set -f", "IFS=\"${IFS}.:\""]
+
+
 def gen_script(rng, eclasses_available, me, want_inherit=False):
+    stmts = gen_script0(rng, eclasses_available, me, want_inherit)
+    if rng.random() < 0.22:
+        # after the last inherit / EXPORT_FUNCTIONS of the file: those bash functions are not written for a foreign IFS
+        # (no real eclass calls them with IFS changed); the plain assignments after it are quoted and unaffected
+        last = max([i for i, s in enumerate(stmts) if s[0] in ("inherit", "export")], default=-1)
+        stmts.insert(rng.randint(last + 1, len(stmts)), ["shell", rng.choice(SHELL_STATE)])
+    return stmts
+
+
+def gen_script0(rng, eclasses_available, me, want_inherit=False):
     """`me` = the eclass name (None for an ebuild).  EXPORT_FUNCTIONS is a statement of its own; the
     `<me>_<phase>` functions it refers to are separate `func` statements put before the call, after it
     (eclasses traditionally export right after the EAPI check), or left out."""
@@ -110,7 +165,7 @@ def gen_script(rng, eclasses_available, me, want_inherit=False):
         elif k < 0.86 and eclasses_available:
             stmts.append(["inherit", rng.sample(eclasses_available, rng.randint(1, min(3, len(eclasses_available))))])
         elif k < 0.92 or not is_eclass:
-            stmts.append(["func", rng.choice(PHASES)])
+            stmts.append(["func", gen_func_name(rng)])
         else:
             stmts.append(["export", rng.sample(PHASES[:15], rng.choice([1, 1, 2, 3]))])
     if not is_eclass:
@@ -149,6 +204,8 @@ def render(stmts):
             out.append("%s() { :; }" % s[1])
         elif s[0] == "export":
             out.append("EXPORT_FUNCTIONS " + " ".join(s[1]))
+        elif s[0] == "shell":
+            out.append(s[1])
     return "\n".join(out) + "\n"
 
 
@@ -162,6 +219,8 @@ def to_tree(stmts, eclasses):
             out.append([s[0], s[1], s[2]])
         elif s[0] == "unset":
             out.append(["unset", s[1]])
+        elif s[0] == "shell":
+            continue    # no effect on the metadata (see TRUSTED): the model never sees it
         else:
             out.append([s[0], s[1]])
     return out
@@ -219,7 +278,120 @@ CORPUS = [
     ("8", [["inherit", ["x", "y"]]],
      {"x": [["export", ["pkg_config"]], ["inherit", ["y"]], ["func", "x_pkg_config"]],
       "y": [["func", "y_pkg_info"], ["export", ["pkg_info", "pkg_nofetch"]], ["func", "y_pkg_nofetch"]]}),
+    # helper functions whose names extend, end in, or abbreviate a phase function name are not phase functions:
+    # only helpers (DEFINED_PHASES is '-'), helpers in an eclass next to a real phase of the ebuild, helper and phase together
+    ("8", [["func", "src_install_docs"], ["func", "pkg_setup_env"], ["func", "my_src_compile"], ["func", "src_tes"], ["func", "SRC_UNPACK"]], {}),
+    ("7", [["inherit", ["h"]], ["func", "pkg_postinst"], ["func", "src_compile_extra"]],
+     {"h": [["func", "src_test_setup"], ["func", "h_src_install"], ["func", "pkg_pretend2"], ["inherit", ["g"]]],
+      "g": [["func", "src_unpack"], ["func", "src_unpacks"], ["func", "_src_configure"]]}),
+    # shell state left changed at global scope by an eclass / the ebuild (the daemon restores IFS, shopt and set options after each file)
+    ("7", [["set", "DESCRIPTION", "Version 1.2 of  pkg"], ["inherit", ["vs"]], ["set", "DEPEND", ">=dev-libs/x-1.5"], ["set", "RDEPEND", "dev-libs/z:2.0\n\tcat/r"]],
+     {"vs": [["set", "HOMEPAGE", "http://h.example.org/"], ["shell", "IFS=. ; set -- ${PV}"], ["set", "IUSE", "a.b"]]}),
+    ("8", [["inherit", ["o", "vs"]], ["set", "SRC_URI", "http://s/a.tar  ->  b.tar"], ["shell", "IFS="], ["set", "LICENSE", "GPL-2\n MIT"]],
+     {"vs": [["shell", "IFS=:/"], ["set", "BDEPEND", "cat/bd:0"]], "o": [["inherit", ["vs"]], ["shell", "shopt -s nullglob"], ["set", "IDEPEND", "cat/id"]]}),
+    ("4", [["func", "src_install"], ["func", "src_install_"], ["inherit", ["h"]]], {"h": [["func", "pkg_config-all"], ["export", ["pkg_info"]]]}),
 ]
+
+
+def shell_kinds(stmts, ecls, seen=None, out=None, where="ebuild"):
+    """which shell-state changes are left behind by the ebuild / by eclasses it sources"""
+    out = set() if out is None else out
+    seen = set() if seen is None else seen
+    for s in stmts:
+        if s[0] == "shell":
+            out.add("shell_state_%s_%s" % (where, s[1].split("=")[0].split()[0]))
+        elif s[0] == "inherit":
+            for n in s[1]:
+                if n not in seen:
+                    seen.add(n)
+                    shell_kinds(ecls[n], ecls, seen, out, "eclass")
+    return out
+
+
+def func_kinds(tree, out=None):
+    out = set() if out is None else out
+    for s in tree:
+        if s[0] == "inherit":
+            for _, b in s[1]:
+                func_kinds(b, out)
+        elif s[0] == "func":
+            out.add("func_" + func_kind(s[1]))
+    return out
+
+
+class _Hang(BaseException):
+    """raised by the watchdog alarm (BaseException: not to be swallowed by an `except Exception` on the way)"""
+
+
+_ARMED = [False]
+
+
+def _on_watchdog(*_a):
+    if _ARMED[0]:
+        raise _Hang()
+
+
+class _Watchdog:
+    """wall-clock limit for one regeneration.  Not SIGALRM: pkgcore's processor arms and clears that timer itself.  A thread waits;
+    on expiry it kills the daemon processes this run started and signals the main thread (SIGUSR1 → _Hang) until it lets go."""
+
+    def __init__(self, limit):
+        self.limit, self.fired, self.killed = limit, False, 0
+        self.done = threading.Event()
+        self.main = threading.main_thread().ident
+        self.old = signal.signal(signal.SIGUSR1, _on_watchdog)
+        _ARMED[0] = True
+        self.t = threading.Thread(target=self._run, daemon=True)
+        self.t.start()
+
+    def _run(self):
+        if self.done.wait(self.limit):
+            return
+        self.fired = True
+        self.killed = _kill_daemon_tree()
+        while not self.done.wait(1.0):
+            self.killed += _kill_daemon_tree()
+            signal.pthread_kill(self.main, signal.SIGUSR1)
+
+    def stop(self):
+        _ARMED[0] = False
+        self.done.set()
+        self.t.join()
+        signal.signal(signal.SIGUSR1, self.old)
+
+
+REGEN_LIMIT = 90   # seconds for one ebuild (normally 0.1–2 s, daemon start included)
+
+
+def _kill_daemon_tree():
+    """kill -9 every descendant of this process that is an ebuild daemon (and what it forked), deepest first"""
+    kids = {}
+    for d in os.listdir("/proc"):
+        if d.isdigit():
+            try:
+                with open("/proc/%s/stat" % d) as f:
+                    rest = f.read().rsplit(")", 1)[1].split()
+                kids.setdefault(int(rest[1]), []).append(int(d))
+            except (OSError, IndexError, ValueError):
+                pass
+    order, todo = [], [(c, False) for c in kids.get(os.getpid(), [])]
+    while todo:
+        pid, inside = todo.pop()
+        if not inside:
+            try:
+                with open("/proc/%d/cmdline" % pid, "rb") as f:
+                    inside = b"ebuild-daemon" in f.read()
+            except OSError:
+                continue
+        if inside:
+            order.append(pid)
+        todo += [(c, inside) for c in kids.get(pid, [])]
+    for pid in reversed(order):
+        try:
+            os.kill(pid, signal.SIGKILL)
+        except OSError:
+            pass
+    return len(order)
 
 
 def build_repo(path):
@@ -236,6 +408,7 @@ def run(ctx):
     from pkgcore.ebuild import repository
     rng = ctx.rng
     base = tempfile.mkdtemp(prefix="c49-")
+    hung = False
     try:
         repos = []
         # corpus: one repository per case (eclass names clash otherwise)
@@ -267,15 +440,22 @@ def run(ctx):
                     f.write("EAPI=%s\n" % eapi + render(eb))
             repo = repository.UnconfiguredTree(path, cache=())
             for j, (eapi, eb) in enumerate(ebuilds):
+                if hung or sum(1 for c in cases if c[4] is not None) >= 6:
+                    # a daemon that dies on an ebuild costs tens of seconds each time; six such failures are reported, the rest is skipped
+                    ctx.count("skipped_after_daemon_failures")
+                    continue
                 tree = to_tree(eb, ecls)
                 if tree_size(tree) > 400:
                     ctx.count("skipped_huge_tree")
                     continue
                 case = {"eapi": eapi, "ebuild": render(eb), "eclasses": {n: render(b) for n, b in ecls.items()
-                                                                         if n in json.dumps(tree)}}
+                                                                         if n in json.dumps(tree)},
+                        "_shell": shell_kinds(eb, ecls)}
+                wd = _Watchdog(REGEN_LIMIT)
                 try:
                     pkg = repo[("cat", "p%d" % j, "1")]
                     data = dict(pkg.data)
+                    _ARMED[0] = False
                     got = {"keys": sorted([k, v] for k, v in data.items()
                                           if k not in ("_chf_", "_eclasses_", "DEFINED_PHASES", "INHERIT", "EAPI")),
                            "phases": [] if data.get("DEFINED_PHASES", "-") == "-" else data["DEFINED_PHASES"].split(),
@@ -283,8 +463,18 @@ def run(ctx):
                            "eclasses": sorted(data.get("_eclasses_", {}).keys()),
                            "eapi": data.get("EAPI")}
                     err = None
+                except _Hang:
+                    _ARMED[0] = False
+                    hung = True
+                    got, err = None, f"no metadata after {REGEN_LIMIT} s: the daemon hangs or runs away ({wd.killed} daemon processes killed)"
                 except Exception as e:  # noqa: BLE001
+                    _ARMED[0] = False
                     got, err = None, f"{type(e).__name__}: {e}"
+                    if wd.fired:
+                        hung = True
+                        err = f"no metadata after {REGEN_LIMIT} s: the daemon hangs or runs away ({wd.killed} daemon processes killed); then {err}"
+                finally:
+                    wd.stop()
                 cases.append((case, eapi, tree, got, err))
         replies = ctx.model([{"cmd": "c49.metadata", "eapi": eapi, "ebuild": tree} for _, eapi, tree, _, _ in cases])
         for (case, eapi, tree, got, err), rep in zip(cases, replies):
@@ -293,6 +483,10 @@ def run(ctx):
             ctx.count("inherit_lines_%s" % (n_inh if n_inh < 4 else "4+"))
             ctx.count("tree_size_%s" % ("<10" if tree_size(tree) < 10 else "<40" if tree_size(tree) < 40 else ">=40"))
             for kind in sorted(export_kinds(tree)) or ["no_export"]:
+                ctx.count(kind)
+            for kind in sorted(func_kinds(tree)) or ["no_func"]:
+                ctx.count(kind)
+            for kind in sorted(case.pop("_shell")) or ["no_shell_state_change"]:
                 ctx.count(kind)
             if rep in ("bad-op", "err") or not isinstance(rep, dict):
                 ctx.case(case, False)
@@ -317,6 +511,8 @@ def run(ctx):
             if real != model:
                 ctx.mismatch(case, "metadata from the daemon differs from the Lean model: " + diff(real, model))
     finally:
+        if hung:
+            _kill_daemon_tree()
         shutil.rmtree(base, ignore_errors=True)
 
 
